@@ -4,7 +4,7 @@
    same bytes; inputs the reference decoder rejects (truncated, 0xC1, ...) are rejected with an error.
    mismatch_outcome o r = MismatchedTypes error or "not loaded, value skipped, position r" per policy.
    Statements only. *)
-From BS Require Import Base MpSpec MpModel MpLemmas MpReader MpTyped.
+From BS Require Import Base MpSpec MpModel MpLemmas MpReader MpTyped MpTs.
 Local Open Scope N_scope.
 
 (* SkipValue: consumes exactly one value as delimited by the reference decoder, errors otherwise *)
@@ -49,6 +49,29 @@ Theorem T_C07_read_f64 : forall widen o data, f64_spec widen o data (read_f64 wi
 Proof. exact read_f64_agrees. Qed.
 Print Assumptions T_C07_read_f64.
 
+(* timestamps (ext type -1): every ext format width carrying a 4/8/12-byte payload is accepted, other
+   payload sizes are a parsing error, other ext types follow the mismatch policy.  ts_read_value is the
+   spec's reading for timestamp 32 and 64; for timestamp 96 it mirrors the writer (finding F08: seconds
+   taken from the first eight payload bytes) — the full-strength statement (= ts_of_payload of MpSpec.v)
+   is refuted exactly there, see T_C07_ts96_refuted *)
+Theorem T_C07_read_ts : forall o data, ts_spec o data (read_ts o data).
+Proof. exact read_ts_agrees. Qed.
+Print Assumptions T_C07_read_ts.
+
+Theorem T_C07_ts_32_64_per_spec : forall p, Forall (fun b => b < 256) p -> (length p = 4 \/ length p = 8)%nat ->
+  match ts_read_value p, ts_of_payload p with
+  | Some (s, n), Some (s', n') => s = s' /\ n = Z.of_N n'
+  | _, _ => False
+  end.
+Proof. exact ts_read_32_64_spec. Qed.
+Print Assumptions T_C07_ts_32_64_per_spec.
+
+Example T_C07_ts96_refuted :
+  let p := [0; 0; 0; 5; 255; 255; 255; 255; 255; 255; 255; 255] in   (* nanoseconds = 5, seconds = -1 per spec *)
+  ts_of_payload p = Some ((-1)%Z, 5) /\ ts_read_value p = Some (25769803775%Z, (-1)%Z).
+Proof. exact ts96_refuted. Qed.
+Print Assumptions T_C07_ts96_refuted.
+
 (* ReadValueType classifies a decodable value without error, nil exactly as nil *)
 Theorem T_C07_value_type : forall b r1,
   match decode (b :: r1) with
@@ -70,6 +93,7 @@ Example T_C07_example :
 Proof. exact decode_example. Qed.
 Print Assumptions T_C07_example.
 
-(* NOT PROVED (covered by the correspondence only): the agreement statement for ReadValue(CBinTimestamp&)
-   (timestamp 32/64 per spec; timestamp 96 mirrors the writer's field order, finding F08) and the
-   stream-reader copy of these functions (tied to the same model by correspondence, see C10). *)
+(* NOT PROVED (covered by the correspondence only): the stream-reader copy of these functions is tied to
+   the same model functions by correspondence (ops of kind 's', read sequences across the 256-byte
+   chunk boundary), not by a separate model; loading into classes / containers / maps goes through the
+   scope classes (C03, C18). *)
